@@ -523,23 +523,38 @@ func genHistory(rt *rapid.T) Case {
 	var defined []mk
 	has := map[string]int{}
 	twice := 0
+	if rapid.IntRange(0, 9).Draw(rt, "base-primary") < 6 {
+		// most histories start with a primary on (t ...): without any applicable primary a call is outside the checked domain
+		ts := make([]string, c.N)
+		for j := range ts {
+			ts[j] = "t"
+		}
+		c.Ops = append(c.Ops, Op{K: "def", S: ts})
+		has[ref.Key("", ts)] = 0
+		defined = append(defined, mk{"", ts})
+	}
+	// rapid draws small values more often than large ones; the tables interleave the alternatives so that the
+	// intended proportions (def 35%, call 35%, rm 20%, cam 10%) hold for small and large draws alike
+	kinds := []string{"def", "call", "def", "call", "rm", "def", "call", "cam", "def", "call", "rm", "def", "call", "def", "call", "rm", "rmany", "cam", "def", "call"}
+	qualTab := []int{0, 3, 1, 2, 0, 3, 1, 2, 0, 3}
+	styleTab := []string{"", "nmp", "", "noargs", "", "twice", "", "stop", "", "nmp", "", "", "noargs", "", "twice", "", "stop", "", "nmp", ""}
 	for i := 0; i < n; i++ {
-		k := rapid.IntRange(0, 99).Draw(rt, "op")
-		switch {
-		case k < 40 || (k >= 75 && k < 88 && len(defined) == 0):
-			op := Op{K: "def", Q: quals[[]int{0, 0, 0, 1, 1, 2, 2, 3, 3, 3}[rapid.IntRange(0, 9).Draw(rt, "qual")]],
+		kind := kinds[rapid.IntRange(0, len(kinds)-1).Draw(rt, "op")]
+		if kind == "rm" && len(defined) == 0 {
+			kind = "def"
+		}
+		switch kind {
+		case "def":
+			op := Op{K: "def", Q: quals[qualTab[rapid.IntRange(0, len(qualTab)-1).Draw(rt, "qual")]],
 				S: specs[rapid.IntRange(0, nSpecs-1).Draw(rt, "specsel")]}
 			if op.Q == "around" {
-				switch v := rapid.IntRange(0, 19).Draw(rt, "style"); {
-				case v < 2:
-					op.V = "stop"
-				case v < 4 && twice < 2:
-					op.V = "twice"
-					twice++
-				case v < 7:
-					op.V = "nmp"
-				case v < 9:
-					op.V = "noargs"
+				op.V = styleTab[rapid.IntRange(0, len(styleTab)-1).Draw(rt, "style")]
+				if op.V == "twice" {
+					if twice >= 2 {
+						op.V = "" // at most two: every "twice" doubles the length of the trace
+					} else {
+						twice++
+					}
 				}
 			}
 			key := ref.Key(op.Q, op.S)
@@ -548,13 +563,13 @@ func genHistory(rt *rapid.T) Case {
 				defined = append(defined, mk{op.Q, op.S})
 			}
 			c.Ops = append(c.Ops, op)
-		case k < 75:
+		case "call":
 			c.Ops = append(c.Ops, Op{K: "call", A: calls[rapid.IntRange(0, nCalls-1).Draw(rt, "callsel")]})
-		case k < 88:
+		case "rm":
 			// remove a method that was defined at some point (it may already be gone: then find-method is checked)
 			m := defined[rapid.IntRange(0, len(defined)-1).Draw(rt, "rmsel")]
 			c.Ops = append(c.Ops, Op{K: "rm", Q: m.q, S: m.s})
-		case k < 90:
+		case "rmany":
 			c.Ops = append(c.Ops, Op{K: "rm", Q: quals[rapid.IntRange(0, 3).Draw(rt, "rmq")], S: specs[rapid.IntRange(0, nSpecs-1).Draw(rt, "rmspec")]})
 		default:
 			c.Ops = append(c.Ops, Op{K: "cam", A: calls[rapid.IntRange(0, nCalls-1).Draw(rt, "camsel")]})
@@ -687,7 +702,7 @@ func rules() {
 func TestC10History(t *testing.T) {
 	rules()
 	h.RunProp(t, cpl, 0)
-	h.RunProp(t, history, h.N(25000, 400000))
+	h.RunProp(t, history, h.N(40000, 400000))
 	if h.C.Shard == 0 {
 		h.Enumerate(t, cpl, func(yield func(CPLCase) bool) {
 			for _, un := range []string{"num", "usr"} {
@@ -703,7 +718,7 @@ func TestC10History(t *testing.T) {
 
 func TestC10Concurrent(t *testing.T) {
 	rules()
-	h.RunProp(t, conc, h.N(1200, 6000))
+	h.RunProp(t, conc, h.N(1500, 6000))
 }
 
 func TestC10Exhaustive(t *testing.T) {
